@@ -15,14 +15,14 @@ def tier(default="quick"):
     return os.environ.get("VERIF_TIER", default)
 
 
-def descriptions(seed, n_per_profile, profiles=None, start=0):
+def descriptions(seed, n_per_profile, profiles=None, start=0, shuffle=True):
     """-> list of {'name','file','text','profile','features','twin','gen_seed'}; LE/BE twins
     are adjacent (d2k little-endian, d2k+1 big-endian)."""
     out = []
     k = start
     for p in (profiles or gen.PROFILES):
         for j in range(n_per_profile):
-            g = gen.generate("%d.%d" % (seed, j), p)
+            g = gen.generate("%d.%d" % (seed, j), p, shuffle=shuffle)
             for e in (A.LE, A.BE):
                 f = A.with_endianness(g["file"], e)
                 text, _ = render.render(f)
